@@ -522,3 +522,20 @@ package graphql
 //@   at[C01,C19] return: assert calls("planMergedSelectionsForType") == 1 || old(fp.abstractAlternatives != nil && has(fp.abstractAlternatives, runtimeType))
 //@   at[C19] return: assert old(fp.abstractAlternatives != nil && has(fp.abstractAlternatives, runtimeType)) ==> calls("planMergedSelectionsForType") == 0
 //@   guarded[C07] fieldPlan.abstractAlternatives, M|*graphql.Object|*graphql.selectionPlan by &p.abstractMu
+
+// ---- schema construction: nothing lazily filled at execute time is shared between copies (C07) ----
+
+//@ func typeMapReducer
+//@   trusted
+//@   assigns nothing
+
+//@ func Object.Interfaces
+//@   trusted
+//@   assigns nothing
+
+// A Schema value is copied freely (Params.Schema, ExecuteParams.Schema, *plan.schema); the lazily
+// filled possible-type table must start nil in every copy so that each request builds its own.
+//@ func NewSchema
+//@   props C07
+//@   nosafety
+//@   ensures result0.possibleTypeMap == nil
